@@ -1,8 +1,10 @@
 package main
 
 import (
+	"go/ast"
 	"go/token"
 	"go/types"
+	"sort"
 	"strings"
 
 	"golang.org/x/tools/go/ssa"
@@ -95,7 +97,7 @@ func checkC02(c *Check) {
 	mut := mutatingFuncs(l, kfuncs)
 
 	// ---- R1 settle-before-act + no stale records
-	for _, name := range []string{"PaymentCreate", "PaymentWithdraw", "PaymentClose", "AccountClose"} {
+	for _, name := range settlingEntryPoints(l, kfuncs, settle) {
 		fn := l.Func("x/escrow/keeper", "keeper", name)
 		c.Analysed(fnName(fn))
 		scs := settleCallsIn(l, fn, settle)
@@ -262,6 +264,9 @@ func checkC02(c *Check) {
 	c.settleHandsOnPayments("R7", settle)
 	c.statePersistedRule("R7", kfuncs)
 	c.Floor("R7", 11)
+
+	// ---- R8 every record read from the store in a loop is decoded into its own variable
+	c.decodeTargetRule("R8", []string{"x/escrow/keeper"})
 
 	// ---- R5 SettledAt
 	nset := 0
@@ -740,7 +745,14 @@ func (c *Check) staleRecordRule(rule string, fn *ssa.Function, s *ssa.Call, mut 
 		if !instrDominates(sHere, call) {
 			continue
 		}
-		for _, a := range call.Common().Args {
+		args := append([]ssa.Value{}, call.Common().Args...)
+		if isStoreSet(call) {
+			// a direct store write: the record is the object being marshalled
+			if o := marshalledObj(call); o != nil {
+				args = append(args, o)
+			}
+		}
+		for _, a := range args {
 			kind := isRecordPtr(a.Type())
 			if kind == "" {
 				continue
@@ -748,5 +760,68 @@ func (c *Check) staleRecordRule(rule string, fn *ssa.Function, s *ssa.Call, mut 
 			fresh, why := recordFreshAt(home, a, sHere, call)
 			c.Ob(rule, name+": "+kind+" written after settlement was loaded after it ("+calleeMethod(call)+" of "+symShort(a)+")", call.Pos(), fresh, why)
 		}
+	}
+}
+
+// settlingEntryPoints: the keeper's exported entry points that must settle before acting (frozen from the property:
+// creating, withdrawing, closing a payment, closing an account) plus every other exported keeper method that today
+// settles the account (a settlement added elsewhere brings the same stale-copy hazard with it).
+func settlingEntryPoints(l *Loaded, kfuncs []*ssa.Function, settle *ssa.Function) []string {
+	names := []string{"PaymentCreate", "PaymentWithdraw", "PaymentClose", "AccountClose"}
+	have := map[string]bool{}
+	for _, n := range names {
+		have[n] = true
+	}
+	var extra []string
+	for _, fn := range kfuncs {
+		if fn.Parent() != nil || fn.Signature.Recv() == nil || !ast.IsExported(fn.Name()) || have[fn.Name()] || fn.Name() == "AccountSettle" {
+			continue
+		}
+		if len(settleCallsIn(l, fn, settle)) > 0 {
+			extra = append(extra, fn.Name())
+			have[fn.Name()] = true
+		}
+	}
+	sort.Strings(extra)
+	return append(names, extra...)
+}
+
+// decodeTargetRule: a record decoded inside a loop is decoded into a variable that belongs to that iteration. The
+// generated Unmarshal does not reset its receiver and sdk.Int / Coin fields hold pointers: decoding every element into
+// one variable declared outside the loop makes the collected elements share the last element's amounts (rates,
+// balances) — settlement would then meter every payment at one payment's rate.
+func (c *Check) decodeTargetRule(rule string, rels []string) {
+	l := c.L
+	n := 0
+	for _, rel := range rels {
+		for _, fn := range l.pkgFuncs(rel) {
+			for _, call := range callsInOwn(fn) {
+				m := calleeMethod(call)
+				if !strings.Contains(m, "Unmarshal") {
+					continue
+				}
+				h := loopHeaderOf(call.Block())
+				if h == nil {
+					continue
+				}
+				args := call.Common().Args
+				tgt, isA := args[len(args)-1].(*ssa.Alloc)
+				if !isA {
+					if mi, isMI := args[len(args)-1].(*ssa.MakeInterface); isMI {
+						tgt, isA = mi.X.(*ssa.Alloc)
+					}
+				}
+				if !isA {
+					continue
+				}
+				n++
+				body := loopBlocks(h)
+				c.Analysed(fnName(fn))
+				c.Ob(rule, "record decoded in the loop of "+fnName(fn)+" has its own variable per iteration", call.Pos(), body[tgt.Block()], "every element is decoded into the single variable '"+tgt.Comment+"' declared outside the loop: elements collected from it share pointer-typed fields (amounts) of the last element read")
+			}
+		}
+	}
+	if n < 2 {
+		c.Fail("%s-%s lost instances: %d decode sites in loops", c.ID, rule, n)
 	}
 }
